@@ -27,13 +27,14 @@ BUDGETS = {"quick": dict(VT_NMAIN=2, VT_NLINK=4, VT_NMODS=3, VT_NPARAMS=3),
 M_INVARIANTS = ["GenInL", "LastTokenNeeded", "TxAgrees", "NoLeak"]
 SEED_NAMES = {1: "grammar", 2: "link", 3: "modifiers*", 4: "modifiers+=", 5: "params", 6: "norules",
               7: "reference+modifiers", 8: "assign-twice(2nd repeated)", 9: "assign-twice(1st repeated)",
-              10: "assign-twice(2nd op)", 11: "assign-twice"}
+              10: "assign-twice(2nd op)", 11: "assign-twice", 12: "alias-rules(2)", 13: "alias-rules(3)"}
 
 # tokens used as replacements / soup material: every kind, but not the compound names
 # (A.B, a-b), which a scannerless parser may split differently in foreign positions
 PUNCT = [":", ";", "|", "(", ")", "[", "]", "=", "*=", "+=", "?=", "*", "+", "?", "#", "-",
          "!", "&", ",", ".", "~", "^", ".."]
 REPL = PUNCT + ["+m:", "+p:", "A", "B", "U", "x", "ID", "INT", "OBJECT", "skipws", "ws", "foo", "split",
+                "noskipws", "nows", "nosplit",
                 "import", "reference", "as", "eolterm", "parent", "__asgn_r", "1b", "INTEGER",
                 "'a'", "''", "'\\xzz'", "\"b\"", "/b/", "/(/", "/*c*/"]
 COMMENTS = ["/*c*/", "//c"]
@@ -150,6 +151,8 @@ VARIANTS = {
     "/x*/": ["/a?/", "/(b|)/", "/\\s*/"],
     "/(/": ["/[/", "/a{2,1}/", "/\\1/", "/a**/", "/(?P<n>a)(?P<n>b)/", "/(?<=a+)b/", "/(?z)a/", "/a)/",
             "/a{99999999999999999999}/", "/\\d{4294967295}/", "/[a-z]{1,4294967296}/", "/\\p/"],
+    "/*c*/": ["/**/", "/***/", "/****/", "/** doc **/", "/* a * b */", "/* / */", "/*\n * x\n **/", "/*//*/"],
+    "//c": ["//", "// c /* x", "//*", "///"],
     "x": ["_x", "x1", "été"],
     "A": ["Abc_1", "Ä"],
     "1b": ["1", "007x"],
@@ -267,10 +270,20 @@ def chunk_cases(base, chunks, rng, quota):
         for k, tok in enumerate(t):
             if tok == "/b/" and not any(x[:1] in "'\"/" for x in t[k + 1:]):
                 hosts.append(t[:k] + ["<r1>"] + t[k + 1:])
-    items = [((c["bf"], c["af"]), c["cs"]) for c in chunks]
+    # a comment chunk may stand anywhere: it is inserted (before the first token, or before any
+    # token after which no slash or quote comes)
+    chosts = [["<r1>", "A", ":", "ID", ";"], ["A", ":", "ID", "<r1>", ";"]]
+    for b in base:
+        t = b["toks"]
+        ks = [k for k in range(len(t) + 1) if not any(x[:1] in "'\"/" for x in t[k:])]
+        if ks:
+            k = rng.choice(ks)
+            chosts.append(t[:k] + ["<r1>"] + t[k:])
+    items = [((c.get("fam", "re"), c["bf"], c["af"]), (c.get("fam", "re"), c["cs"])) for c in chunks]
     out = []
-    for j, (_, cs) in enumerate(stratified(items, rng, quota)):
-        host = hosts[0] if j % 3 == 0 else rng.choice(hosts)
+    for j, (_, (fam, cs)) in enumerate(stratified(items, rng, quota)):
+        hs = hosts if fam == "re" else chosts
+        host = hs[j % 2] if (j % 3 == 0 and fam != "re") else hs[0] if j % 3 == 0 else rng.choice(hs)
         out.append(dict(kind="chunk", toks=list(host), raws=[list(cs)], only="C24"))
     return out
 
@@ -431,6 +444,7 @@ def build_cases(base, rng, tier, prop=None, chunks=()):
         add(kind, toks)
     # surface variants: every variant spelling in texts from every seed that has the token
     pool = base + [dict(toks=t["toks"], seed=0) for t in TARGETED if t.get("text") is None and not t.get("kw")]
+    pool += [dict(toks=toks, seed=0) for kind, toks in muts if kind == "cmt"][:400]
     variants = variant_cases(pool, rng, per_variant=4 if quick else 16)
     for v in variants:
         add("var", v.pop("toks"), **{k: x for k, x in v.items() if k != "kind"})
@@ -594,6 +608,30 @@ def _observe_tx(text):
         return f"EXC {type(e).__name__}: {str(e)[:100]}"
 
 
+def _observe_txf(text):
+    """The self-hosted grammar asked through a file: the same path is rewritten for every text of
+    this worker and inspected again (alternately grammar_model_from_file(path) and
+    grammar_model_from_str(text, file_name=path)), so an answer that depends on what was inspected
+    before under that name shows up."""
+    from textx.exceptions import TextXSyntaxError
+    path = os.path.join(os.environ["VT_MG_SCRATCH"], f"g{os.getpid()}.tx")
+    _W["n"] = _W.get("n", 0) + 1
+    try:
+        with open(path, "w", encoding="utf-8", newline="") as f:
+            f.write(text)
+        if _W["n"] % 2:
+            _tx().grammar_model_from_file(path)
+        else:
+            _tx().grammar_model_from_str(text, file_name=path)
+        return "acc"
+    except TextXSyntaxError:
+        return "rej"
+    except _Timeout:
+        raise
+    except Exception as e:  # noqa: BLE001
+        return f"EXC {type(e).__name__}: {str(e)[:100]}"
+
+
 def _run_chunk(args):
     chunk, what, limit = args
     out = []
@@ -606,6 +644,8 @@ def _run_chunk(args):
                     o["mm"] = _observe_mm(text, kw)
                 elif w == "lang":
                     o["lang"] = _observe_lang(text)
+                elif w == "txf":
+                    o["txf"] = _observe_txf(text)
                 else:
                     o["tx"] = _observe_tx(text)
             except _Timeout:
@@ -642,10 +682,17 @@ def observe(cases, what, limit=20.0, procs=None):
     chunks = [(items[i:i + size], tuple(what), limit) for i in range(0, len(items), size)]
     out = {}
     ctx = mp.get_context("fork")
-    with ProcessPoolExecutor(max_workers=procs, mp_context=ctx, initializer=_init_worker) as ex:
-        for part in ex.map(_run_chunk, chunks):
-            for o in part:
-                out[o["id"]] = o
+    work = tlc.scratch("vt-mgf-") if "txf" in what else None
+    if work:
+        os.environ["VT_MG_SCRATCH"] = work
+    try:
+        with ProcessPoolExecutor(max_workers=procs, mp_context=ctx, initializer=_init_worker) as ex:
+            for part in ex.map(_run_chunk, chunks):
+                for o in part:
+                    out[o["id"]] = o
+    finally:
+        if work:
+            shutil.rmtree(work, ignore_errors=True)
     if len(out) != len(cases):
         raise tlc.MachineryError("worker processes lost cases")
     slow = [c for c in cases if any("Timeout" in json.dumps(out[c["id"]].get(w)) for w in what)]
